@@ -34,7 +34,22 @@ fn pick_case(rng: &mut Rng, idx: u64) -> (GCase, Vocab) {
         4 => VKind::V1c,
         _ => VKind::Bpe(0),
     };
-    let v = pool::make_vocab(rng, &g, vk);
+    let mut v = pool::make_vocab(rng, &g, vk);
+    // one case in four: a vocabulary with two or three EOS ids (extra ones are special tokens the
+    // grammar text does not mention)
+    if rng.chance(1, 4) {
+        let cand: Vec<u32> = v
+            .specials
+            .iter()
+            .copied()
+            .filter(|&t| t != v.eos && v.words[t as usize].len() > 1 && !g.text.contains(&String::from_utf8_lossy(&v.words[t as usize][1..]).to_string()))
+            .collect();
+        if !cand.is_empty() {
+            let k = 1 + rng.below(2);
+            let extra: Vec<u32> = (0..k).map(|_| *rng.pick(&cand)).collect();
+            v = v.with_extra_eos(&extra);
+        }
+    }
     (g, v)
 }
 
@@ -43,7 +58,7 @@ fn stop_due(r: &mut TokenParser, v: &Vocab) -> Option<bool> {
     let acc = r.is_accepting();
     match r.compute_mask() {
         Ok(m) => {
-            let non_eos = (0..v.n() as u32).any(|t| t != v.eos && m.is_allowed(t));
+            let non_eos = (0..v.n() as u32).any(|t| !v.is_eos(t) && m.is_allowed(t));
             Some(acc && !non_eos)
         }
         Err(_) => {
@@ -135,7 +150,7 @@ fn matcher_case(ctx: &mut Ctx, idx: u64) {
         ops.push(format!("commit {t}"));
         hist.push(t);
         ctx.rep.inc("stop_decisions_checked");
-        if t == v.eos {
+        if v.is_eos(t) {
             // EOS committed in an accepting state => stop EndOfSentence
             if !(m.is_stopped() && m.stop_reason() == StopReason::EndOfSentence && was_accepting) {
                 viol!("eos_commit_did_not_stop", json!({"stop": format!("{:?}", m.stop_reason()), "was_accepting": was_accepting}));
@@ -164,7 +179,7 @@ fn matcher_case(ctx: &mut Ctx, idx: u64) {
     if m.is_stopped() && !m.is_error() {
         ctx.rep.inc("stopped_runs");
         // text assembled from the tokens is a complete string of the grammar
-        let body: Vec<u32> = hist.iter().copied().filter(|&t| t != v.eos).collect();
+        let body: Vec<u32> = hist.iter().copied().filter(|&t| !v.is_eos(t)).collect();
         let text = v.trie().decode_raw(&body);
         match complete_in_byte_engine(&f1, &g, &text) {
             Some(true) => {}
@@ -200,7 +215,9 @@ fn matcher_case(ctx: &mut Ctx, idx: u64) {
             match fr.compute_mask_or_eos() {
                 Ok(me) => {
                     let l = mask_list(&me, v.n());
-                    if l != vec![v.eos] {
+                    let mut want = v.eos_all.clone();
+                    want.sort();
+                    if l != want {
                         viol!("mask_or_eos_after_stop_not_exactly_eos", json!({"mask": l.iter().take(8).collect::<Vec<_>>()}));
                     }
                 }
@@ -236,6 +253,7 @@ fn constraint_case(ctx: &mut Ctx, idx: u64) {
     }
     let steps = ctx.pick(30, 70);
     let mut stopped = false;
+    let mut eos_committed_accepting = false;
     for step in 0..steps {
         // illegal: commit before / without a mask, on a clone
         if rng.chance(1, 10) {
@@ -264,6 +282,9 @@ fn constraint_case(ctx: &mut Ctx, idx: u64) {
         if r.is_stop() {
             stopped = true;
             break;
+        }
+        if eos_committed_accepting {
+            viol!("eos_commit_did_not_stop", json!({"stop": format!("{:?}", c.parser.stop_reason()), "was_accepting": true}));
         }
         let Some(mask) = r.sample_mask.clone() else {
             viol!("neither_mask_nor_stop", json!({"splices": r.splices.len()}));
@@ -297,6 +318,9 @@ fn constraint_case(ctx: &mut Ctx, idx: u64) {
         }
         let pol = walker::policy_for_step(&mut rng, step, steps);
         let Some(t) = walker::choose(&mut rng, &mask, &v, pol) else { break };
+        if v.is_eos(t) && c.parser.is_accepting() {
+            eos_committed_accepting = true;
+        }
         let cr = match c.commit_token(Some(t)) {
             Ok(cr) => cr,
             Err(_) => viol!("masked_token_rejected", json!({"token": t})),
@@ -313,7 +337,7 @@ fn constraint_case(ctx: &mut Ctx, idx: u64) {
     }
     if stopped {
         ctx.rep.inc("stopped_runs");
-        let body: Vec<u32> = hist.iter().copied().filter(|&t| t != v.eos).collect();
+        let body: Vec<u32> = hist.iter().copied().filter(|&t| !v.is_eos(t)).collect();
         let text = v.trie().decode_raw(&body);
         match complete_in_byte_engine(&f1, &g, &text) {
             Some(true) => {}
